@@ -206,6 +206,13 @@ pub fn streams() -> Vec<Box<dyn AnyStream>> {
             check: Box::new(check_lexical_string),
         }),
         Box::new(Stream::<VCase> {
+            name: "decoration-fields",
+            quick: 0,
+            thorough: 0,
+            source: Source::Enum(Box::new(|_| Box::new(decoration_space().into_iter().map(|x| VCase { class: "decoration".into(), x })))),
+            check: Box::new(check_value),
+        }),
+        Box::new(Stream::<VCase> {
             name: "values",
             quick: 30_000,
             thorough: 1_000_000,
